@@ -482,10 +482,100 @@ func init() {
 					bad = true
 				}
 			}
+			var out []Obligation
 			if !bad {
-				return []Obligation{mkOb(c, "PKG.new-uses-lang", u, "create then import", defs[0].Call, Proved, "after DefinePackage every path imports the language package before any return (or Registry.Lang is empty)", true)}
+				out = append(out, mkOb(c, "PKG.new-uses-lang", u, "create then import", defs[0].Call, Proved, "after DefinePackage every path imports the language package before any return (or Registry.Lang is empty)", true))
+			} else {
+				out = append(out, mkOb(c, "PKG.new-uses-lang", u, "create then import", defs[0].Call, Violated, "a return is reachable after the new package was registered and before the language package was imported: a later in-package finds it existing and never imports the language", true))
 			}
-			return []Obligation{mkOb(c, "PKG.new-uses-lang", u, "create then import", defs[0].Call, Violated, "a return is reachable after the new package was registered and before the language package was imported: a later in-package finds it existing and never imports the language", true)}
+			// ... and when that import FAILS (the language package exports an unbound name), the
+			// registration is undone before the error is returned: the package is removed from the
+			// registry and the current package put back.  Otherwise the program is left inside an
+			// empty package where nothing resolves, and a later in-package of the same name finds it
+			// `existing` and never imports the language (a created package is never left empty —
+			// also on the error path).
+			pkgsFld := c.LookupField("lisp.PackageRegistry.packages")
+			curFld := c.LookupField("lisp.Runtime.Package")
+			typeFld := c.LookupField("lisp.LVal.Type")
+			lerrT := c.Pkg("lisp").Types.Scope().Lookup("LError")
+			for _, uc := range fc.findCalls(use) {
+				// the local that receives the result
+				var res types.Object
+				for _, n := range uc.Loc.B.Nodes {
+					if as, ok := n.(*ast.AssignStmt); ok && len(as.Lhs) == 1 && len(as.Rhs) == 1 && ast.Unparen(as.Rhs[0]) == ast.Expr(uc.Call) {
+						res = identObj(info, as.Lhs[0])
+					}
+				}
+				if res == nil || pkgsFld == nil || curFld == nil {
+					continue
+				}
+				errEdges := fc.edgesEntailing(func(e ast.Expr) (string, bool) {
+					be, ok := ast.Unparen(e).(*ast.BinaryExpr)
+					if !ok || (be.Op != token.EQL && be.Op != token.NEQ) {
+						return "", false
+					}
+					se, ok := ast.Unparen(be.X).(*ast.SelectorExpr)
+					if !ok || FieldOfSelector(info, se) != typeFld || identObj(info, se.X) != res || identObj(info, be.Y) != lerrT {
+						return "", false
+					}
+					return "failed", be.Op == token.NEQ
+				}, func(v map[string]bool) bool { return v["$has:failed"] && v["failed"] })
+				undone := fc.blocksWith(func(n ast.Node) bool {
+					for _, ce := range callsIn(n, false) {
+						if id, ok := ast.Unparen(ce.Fun).(*ast.Ident); ok && id.Name == "delete" && len(ce.Args) == 2 && FieldOfSelector(info, ce.Args[0]) == pkgsFld {
+							return true
+						}
+					}
+					return false
+				})
+				restored := fc.blocksWith(func(n ast.Node) bool {
+					as, ok := n.(*ast.AssignStmt)
+					if !ok {
+						return false
+					}
+					for _, l := range as.Lhs {
+						if FieldOfSelector(info, l) == curFld {
+							return true
+						}
+					}
+					return false
+				})
+				leaks := ""
+				for _, e := range errEdges {
+					succ := e.B.Succs[e.K]
+					for _, b := range fc.G.Blocks {
+						if !fc.Live(b) {
+							continue
+						}
+						isRet := false
+						for _, n := range b.Nodes {
+							if _, ok := n.(*ast.ReturnStmt); ok {
+								isRet = true
+							}
+						}
+						if !isRet {
+							continue
+						}
+						if !undone[b] && fc.reachableFromAvoidingBlocks(succ, b, undone) {
+							leaks = "the package stays in the registry"
+						}
+						if !restored[b] && fc.reachableFromAvoidingBlocks(succ, b, restored) {
+							if leaks == "" {
+								leaks = "the current package stays switched to it"
+							}
+						}
+					}
+				}
+				if len(errEdges) == 0 {
+					continue
+				}
+				if leaks == "" {
+					out = append(out, mkOb(c, "PKG.new-uses-lang", u, "failed import undone", uc.Call, Proved, "on the edge where the language import failed the package is deleted from the registry and the current package restored before the error is returned", true))
+				} else {
+					out = append(out, mkOb(c, "PKG.new-uses-lang", u, "failed import undone", uc.Call, Violated, "when importing the language package into the NEW package fails, the error is returned while "+leaks+": after (in-package 'lisp) (export 'ghost), a failing (in-package 'fresh) leaves the program in an empty package where not even lambda or in-package resolves, and once ghost is bound (in-package 'fresh) still finds the package `existing` and never imports the language", true))
+				}
+			}
+			return out
 		}})
 }
 
